@@ -205,8 +205,10 @@ theorem init_inv (n : Nat) (probes : List Probe) (h : ∀ pr ∈ probes, pr.acti
     · cases hfs; simp [occSum]
     · cases hfs
 
-theorem attach_inv (s : State) (p st : Nat) (h : Inv s) : Inv (attach s p st).1 := by
-  simp only [attach]
+/-- changing the stages of a probe (and the completion log) does not concern the invariant -/
+theorem stages_inv (s : State) (p : Nat) (g : List Nat → List Nat) (completed' : List (Nat × Nat)) (h : Inv s) :
+    Inv { s with completed := completed',
+                 probes := modifyNth s.probes p fun pr => { pr with stages := g pr.stages } } := by
   refine ⟨h.nodup, ?_, ?_, ?_, ?_⟩
   rotate_left 3
   · intro q pr hq ha
@@ -228,15 +230,18 @@ theorem attach_inv (s : State) (p st : Nat) (h : Inv s) : Inv (attach s p st).1 
     · subst hq; cases s.probes[q]? <;> simp
     · simp [hq]
   · intro f fs hfs
-    have e := entriesSum_modify s.probes p (fun pr => { pr with stages := pr.stages ++ [st] })
+    have e := entriesSum_modify s.probes p (fun pr => { pr with stages := g pr.stages })
       (fun _ => rfl) s.current f
     show fs.count = entriesSum (modifyNth s.probes p _) s.current f
     rw [e]; exact h.count f fs hfs
   · intro f fs c hfs
-    have e := occSum_modify s.probes p (fun pr => { pr with stages := pr.stages ++ [st] })
+    have e := occSum_modify s.probes p (fun pr => { pr with stages := g pr.stages })
       (fun _ => rfl) s.current f c
     show fs.caps.count c = occSum (modifyNth s.probes p _) s.current f c
     rw [e]; exact h.caps f fs c hfs
+
+theorem attach_inv (s : State) (p st : Nat) (h : Inv s) : Inv (attach s p st).1 :=
+  stages_inv s p (fun l => l ++ [st]) s.completed h
 
 theorem activate_refused_inv (s : State) (pr : Probe) (h : Inv s) :
     Inv { s with fns := popAll (pushAll s.fns pr.spec.targets) pr.spec.targets.reverse } := by
@@ -435,7 +440,8 @@ theorem step_inv (body : Nat → List Nat) (varOf : Nat → Nat) (s : State) (op
       · simp only [hact, Bool.not_true, Bool.false_eq_true, if_false]
         exact deactivate_ok_inv s p pr hp hact h
       · have : pr.active = false := by simpa using hact
-        simp only [this, Bool.not_false, if_true]; exact h
+        simp only [this, Bool.not_false, if_true]
+        exact stages_inv s p (fun _ => []) _ h
 
 /-- the invariant holds after every history -/
 theorem run_inv (body : Nat → List Nat) (varOf : Nat → Nat) :
